@@ -62,7 +62,7 @@ NullRes == L!R(<<>>, NONE, {}, <<>>)
 CritPcs == {"g1", "g2", "s1", "s2", "s3", "s4", "d1", "l1", "k1", "c1", "c2"}
 Idle == [pc |-> "idle", op |-> NONE, k |-> NONE, v |-> 0, item |-> NullEntry, ev |-> <<>>, res |-> NONE, rk |-> {}, g |-> 0]
 
-FirstPc(op) == CASE op \in {"get", "getd", "goc"} -> "g1" [] op = "set" -> "s1" [] op = "del" -> "d1"
+FirstPc(op) == CASE op \in {"get", "getd", "has", "goc"} -> "g1" [] op = "set" -> "s1" [] op = "del" -> "d1"
                  [] op = "len" -> "l1" [] op = "keys" -> "k1" [] op = "clear" -> "c1"
 
 \* the value stored by the i-th operation of thread t (unique, so that "exactly once" is exact)
@@ -76,10 +76,10 @@ Micro(c, m, l) ==
     LET i == L!Idx(c, l.k) IN
     CASE l.pc = "g1" ->      \* item = self._container.pop(key)            (KeyError leaves the with-block)
            IF i = 0 THEN (IF l.op = "goc" THEN [cont |-> c, l |-> [l EXCEPT !.pc = "s1"]]   \* pool = None: create and set
-                          ELSE [cont |-> c, l |-> [l EXCEPT !.pc = "rel", !.res = IF l.op = "get" THEN KEYERROR ELSE NONE]])
+                          ELSE [cont |-> c, l |-> [l EXCEPT !.pc = "rel", !.res = CASE l.op = "get" -> KEYERROR [] l.op = "has" -> "False" [] OTHER -> NONE]])
            ELSE [cont |-> L!RemoveIdx(c, i), l |-> [l EXCEPT !.pc = "g2", !.item = c[i]]]
       [] l.pc = "g2" ->      \* self._container[key] = item ; return item
-           [cont |-> Append(c, l.item), l |-> [l EXCEPT !.pc = "rel", !.res = ToString(l.item.v)]]
+           [cont |-> Append(c, l.item), l |-> [l EXCEPT !.pc = "rel", !.res = IF l.op = "has" THEN "True" ELSE ToString(l.item.v)]]
       [] l.pc = "s1" ->      \* try: evicted_item = key, self._container.pop(key)
            IF i # 0 THEN [cont |-> L!RemoveIdx(c, i), l |-> [l EXCEPT !.pc = "s2", !.ev = <<c[i].v>>]]
            ELSE [cont |-> c, l |-> [l EXCEPT !.pc = "s3"]]
